@@ -11,6 +11,7 @@ C13, second file (gap round): the three clauses that `Props/C13.lean` decided on
    Euler-Maruyama or Milstein run, in every step, every entry of every component of field `f` in cell `cell` changes
    by `dt*rate + r*xi` with `r ≥ 0`, `r*r = noise[f]*dt/vol[cell]` (any interpretation: the variance is constant);
    `collection_run_implicit_per_field`: the semi-implicit solver iterates from `st j + r*xi_j` with the same `r`.
+   `fieldSys` / `fieldSys_hyps` / `field_run_per_component`: the same for one tensor field with one variance per component.
 2. **drift and Milstein correction for N steps, non-uniform volumes**: `run_explicit_documented` (one statement for both
    explicit solvers, total: the run exists), `run_explicit_sum` (induction over the steps: state after `M` steps =
    initial state + sum of the documented increments `docIncr`, the `j`-th with array `j` of the stream),
@@ -670,5 +671,125 @@ example : ((exColl .ito).run .implicit 0 2 #[1, 1, 1, 1, 1, 1]
   decide +kernel
 
 end examples3
+
+
+section fieldsys
+variable {K : Type} [Field K] [LinearOrder K] [IsStrictOrderedRing K]
+
+omit [Field K] [LinearOrder K] [IsStrictOrderedRing K] in
+theorem field_index (ncomp ncell c cell : Nat) (hc : c < ncomp) (hcell : cell < ncell) :
+    c * ncell + cell < ncomp * ncell ∧ (c * ncell + cell) % ncell = cell := by
+  constructor
+  · calc c * ncell + cell < c * ncell + ncell := by omega
+      _ = (c + 1) * ncell := by ring
+      _ ≤ ncomp * ncell := Nat.mul_le_mul_right _ (by omega)
+  · rw [Nat.add_mod, Nat.mul_mod_left, Nat.zero_add, Nat.mod_mod, Nat.mod_eq_of_lt hcell]
+
+omit [IsStrictOrderedRing K] in
+/-- the hypotheses of the run theorems hold for `fieldSys`, given roots of `noise[c]/vol[cell]` only -/
+theorem fieldSys_hyps (sqrt : K → K) (dt : K) (I : Interp) (vol : Array K) (noise : List K)
+    (ncomp : Nat) (rate : Nat → Array K → Array K) (maxiter : Nat) (maxerr2 : K)
+    (hroot : ∀ c cell, c < ncomp → cell < vol.size →
+      RootOn sqrt (noise.getD (c % noise.length) zero * (1 / get vol cell))) :
+    let S := fieldSys sqrt dt I vol noise ncomp rate none maxiter maxerr2
+    (∀ i, i < S.n → get S.inv (i % S.ncell) = 1 / get vol (i % S.ncell)) ∧
+    (∀ (u : Array K) (i : Nat), i < S.n →
+      RootOn S.sqrt (get (S.var u) i * get S.inv (i % S.ncell))) := by
+  intro S
+  have hn : S.n = ncomp * vol.size := rfl
+  have hc : S.ncell = vol.size := rfl
+  have hmod : ∀ i, i < S.n → i % vol.size < vol.size := by
+    intro i hi
+    apply Nat.mod_lt
+    rcases Nat.eq_zero_or_pos vol.size with h0 | h0
+    · rw [hn, h0] at hi; omega
+    · exact h0
+  have hinv : ∀ i, i < S.n → get S.inv (i % S.ncell) = 1 / get vol (i % S.ncell) := by
+    intro i hi
+    rw [hc]
+    exact get_invCell vol _ (hmod i hi)
+  refine ⟨hinv, ?_⟩
+  intro u i hi
+  rw [hinv i hi, hc]
+  have hp : i / vol.size < ncomp := by
+    apply Nat.div_lt_of_lt_mul
+    rw [Nat.mul_comm]; exact hn ▸ hi
+  have hi' : i = (i / vol.size) * vol.size + i % vol.size := (Nat.div_add_mod' i vol.size).symm
+  have hv : get (S.var u) i = noise.getD ((i / vol.size) % noise.length) zero := by
+    show get (constVar vol.size (fieldVars noise ncomp)) i = _
+    rw [hi']
+    have := (variance_layout_per_component noise ncomp vol.size (i / vol.size) (i % vol.size) hp (hmod i hi)).1
+    rw [this, ← hi']
+  rw [hv]
+  exact hroot _ _ hp (hmod i hi)
+
+/-- **Per-component variances of a tensor field in whole runs.**  For the closure `fieldSys` the driver builds for a
+single field with `ncomp` tensor components (noise broadcast `noise[c % len]`: a scalar, or one value per component), an
+`m`-step run of an explicit solver exists, consumes `m` arrays, and in every step the entry of component `c` in cell
+`cell` changes by `dt*rate + r*xi` with `r ≥ 0`, `r*r = noise[c]*dt/vol[cell]`. -/
+theorem field_run_per_component (sqrt : K → K) (dt : K) (I : Interp) (vol : Array K)
+    (noise : List K) (ncomp : Nat) (rate : Nat → Array K → Array K) (maxiter : Nat)
+    (maxerr2 : K) (sol : Solver) (hsol : sol ≠ .implicit)
+    (hs : sqrt dt * sqrt dt = dt) (hs0 : 0 ≤ sqrt dt)
+    (hroot : ∀ c cell, c < ncomp → cell < vol.size →
+      RootOn sqrt (noise.getD (c % noise.length) zero * (1 / get vol cell)))
+    (m k : Nat) (u : Array K) (xs : List (Array K)) (hlen : m ≤ xs.length) :
+    let S := fieldSys sqrt dt I vol noise ncomp rate none maxiter maxerr2
+    ∃ st : Nat → Array K, st 0 = u ∧ S.run sol k m u xs = some (st m, xs.drop m) ∧
+      ∀ j, j < m → ∃ x, xs[j]? = some x ∧
+        ∀ (c cell : Nat), c < ncomp → cell < vol.size →
+          ∃ r : K, 0 ≤ r ∧ r * r = noise.getD (c % noise.length) zero * dt / get vol cell ∧
+            get (st (j + 1)) (c * vol.size + cell)
+              = get (st j) (c * vol.size + cell)
+                + dt * get (rate (k + j) (st j)) (c * vol.size + cell)
+                + r * get x (c * vol.size + cell) := by
+  intro S
+  obtain ⟨hinv, hr⟩ := fieldSys_hyps sqrt dt I vol noise ncomp rate maxiter maxerr2 hroot
+  obtain ⟨st, h0, hrun, hst⟩ := run_explicit_documented S vol sol hsol hs hs0 rfl hinv hr m k u xs hlen
+  refine ⟨st, h0, hrun, ?_⟩
+  intro j hj
+  obtain ⟨x, hx, hform⟩ := hst j hj
+  refine ⟨x, hx, ?_⟩
+  intro c cell hc hcell
+  obtain ⟨hi, hmod⟩ := field_index ncomp vol.size c cell hc hcell
+  obtain ⟨r, a, b, e⟩ := hform _ hi
+  have hv : get (S.var (st j)) (c * vol.size + cell) = noise.getD (c % noise.length) zero :=
+    (variance_layout_per_component noise ncomp vol.size c cell hc hcell).1
+  have hvd : get (S.varDiff (st j)) (c * vol.size + cell) = 0 := by
+    show get (tab (ncomp * vol.size) fun _ => zero) _ = 0
+    rw [get_tab _ hi, zero_eq]
+  have hm' : (c * vol.size + cell) % S.ncell = cell := hmod
+  rw [hm', hv] at b
+  refine ⟨r, a, b, ?_⟩
+  have hrate : S.rate = rate := rfl
+  have hdt : S.dt = dt := rfl
+  rw [e, hvd, docIncr, hrate, hdt]
+  simp
+  ring
+
+end fieldsys
+
+section examples4
+
+/-- a vector field with two components on two cells of volumes 4 and 1, variances 4 and 1 per component: the hypotheses
+of `field_run_per_component` hold -/
+example : ∀ c cell, c < 2 → cell < (#[4, 1] : Array ℚ).size →
+      RootOn exSqrt (([4, 1] : List ℚ).getD (c % ([4, 1] : List ℚ).length) zero * (1 / get (#[4, 1] : Array ℚ) cell)) := by
+  intro f cell hf hc
+  have hc' : cell < 2 := hc
+  unfold RootOn
+  match f, hf, cell, hc' with
+  | 0, _, 0, _ => decide +kernel
+  | 0, _, 1, _ => decide +kernel
+  | 1, _, 0, _ => decide +kernel
+  | 1, _, 1, _ => decide +kernel
+
+/-- ... and its Milstein step uses the roots 1/2, 1 (component 0) and 1/4, 1/2 (component 1) -/
+example : (fieldSys exSqrt (1 / 4) .antiIto #[4, 1] [4, 1] 2 (fun _ u => tab 4 fun i => -(get u i)) none 100
+      (1 / 100000000)).step .milstein 0 #[1, 1, 1, 1] #[1, 1, 1, 1]
+    = some #[1 - 1 / 4 + 1 / 2, 1 - 1 / 4 + 1, 1 - 1 / 4 + 1 / 4, 1 - 1 / 4 + 1 / 2] := by
+  decide +kernel
+
+end examples4
 
 end PdeVerif.Noise
